@@ -12,7 +12,7 @@ ENGINES = [
     {
         "name": "enum",
         "path": "vf/engine/runner.py vf/ref/",
-        "serves_properties": ["C01", "C02", "C03", "C15", "C17", "C18"],
+        "serves_properties": ["C01", "C02", "C03", "C15", "C17", "C18", "C20"],
         "kind_free_text": "bounded-exhaustive enumerator for sequential code: Cartesian products of boundary alphabets, exhaustive short "
         "byte spaces, mutation neighbourhoods and complete fault/lifecycle products, every case run on the real code and compared with an "
         "independent reference (ISO 14229-1 layout table vf/ref/iso14229.py, lifecycle model vf/ref/c15_model.py); 16-way process pool",
@@ -230,6 +230,20 @@ CHECKS = [
         "of the replay equals the recorded reply bytes, silence where none was recorded.",
         "note": "Trusted: sqlite3, FIFO model of aiosqlite, deterministic stand-in for the unseeded seed RNG. The ecu table link is written with plain SQL "
         "(gallia has no writer for it). Not covered: databases recorded from other ECU implementations, histories longer than the bound.",
+    },    {
+        "id": "C20",
+        "engine": "enum",
+        "level": "exploration",
+        "technique": "bounded-exhaustive enumeration of the real URI / host:port / transport-config / range parsers against a reference tuple model and a structural range evaluator; the scanners' URI builders are executed for real or AST-extracted from the current source",
+        "text": "Hosts {DNS names, IPv4 incl. 0.0.0.0/255.255.255.255, IPv6 full/compressed/'::'/'::1'/link-local/v4-mapped} x ports {None,0,1,80,65535} x every "
+        "parameter map over the DoIP / HSFZ / ISO-TP / raw-CAN config models (each field absent or a boundary value spelled in decimal, hex, octal, binary, "
+        "upper/lower case) x schemes: TargetURI.from_parts -> str -> TargetURI preserves scheme, host, port, parameters and location and Config(**qs_flat) "
+        "yields the written numbers; split_host_port/join_host_port are lossless; the HSFZ / ISO-TP / DoIP discoverers' URI construction is exercised with "
+        "boundary arguments incl. sub-second timeouts. Range grammar: all expressions of <= 4 tokens for unravel and <= 3 outer groups for unravel_2d over "
+        "8 numerals incl. overlaps, single-element, reversed and empty ranges, repeated outer keys and whitespace variants, through the raw functions and "
+        "the Ranges / Ranges2D pydantic types: result = sorted union (per outer key; bare key = all). 4.9 M evaluations quick, 86 M thorough.",
+        "note": "Trusted: pydantic, urllib, ipaddress, vf/ref/c20_model.py. Hosts are compared as hosts. Reversed ranges, empty parts and undocumented whitespace "
+        "may be rejected with ValueError but never silently differ. Not covered: zone-id IPv6 hosts, 4-token expressions with wide ranges, Windows schemes.",
     },
 ]
 
